@@ -21,9 +21,9 @@ theorem mid_block_reader_is_in_select {s s' : Sys} {d : Dir}
     (s'.side d).r = .selReading ∧ (s'.side d).out = (s.side d).out ∧ (s'.side d).dmu = (s.side d).dmu ∧
     lockHeld s' = lockHeld s ∧ mu s' < mu s := by
   refine ⟨?_, ?_, ?_, ?_, step_decreases rfl h⟩ <;>
-  · obtain ⟨⟨cr, cw, cf, co, ce, cl, cs, cx, cm⟩, ⟨sr, sw, sf, so, se, sl, ss, sx, sm⟩, dn, clg, wt, rt, scc, ccc⟩ := s
+  · obtain ⟨⟨cr, cw, cf, co, ce, cl, cs, cx, cm, cq⟩, ⟨sr, sw, sf, so, se, sl, ss, sx, sm, sq⟩, dn, clg, wt, rt, scc, ccc⟩ := s
     cases d <;> simp [Sys.side] at hs <;> subst hs <;> simp [step, Sys.side, Sys.setSide, afterTake] at h <;>
-      subst h <;> (try rfl) <;> (funext t; cases t <;> simp [lockHeld, Rd.isPushing])
+      subst h <;> (try rfl) <;> (funext t; cases t <;> simp [lockHeld, Sys.side])
 
 /-- Whatever ends the session while a direction sits in the middle of a header block with its
     endpoint silent — `done` closed by the other direction or by the watcher, a failed write of its
